@@ -210,6 +210,9 @@ class _CppTranslator(TranslatorBase):
     block_template = CPP_SOURCE_TEMPLATE
 
     def translate_enum(self, node):
+        # enumerators may repeat a value; a switch may not: the last name stands for the value, as in the Python codec
+        last_name = {m.value: m.name for m in node.members}
+        members = [m for m in node.members if last_name[m.value] == m.name]
         return (
                 'template <>\n' +
                 'const char* print_traits<{0}>::to_literal({0} x)\n'.format(node.name) +
@@ -218,7 +221,7 @@ class _CppTranslator(TranslatorBase):
                     'switch (x)\n' +
                     '{\n' +
                     _indent(
-                        ''.join('case {0}: return "{0}";\n'.format(m.name) for m in node.members) +
+                        ''.join('case {0}: return "{0}";\n'.format(m.name) for m in members) +
                         'default: return 0;\n'
                     ) +
                     '}\n'
